@@ -13,14 +13,16 @@ MANIFEST = {
     "technique": "Rocq proof over a model translated from settings.py on every run (validation <-> documented, atomicity, "
                  "reset = fresh defaults by induction over call histories, try/finally restoration for any wrapped computation) "
                  "+ vm_compute correspondence + independent oracle search",
-    "level_text": "Machine-checked theorems (C20_validation, C20_atomic, C20_accepts, C20_reset, C20_temporary, closed under the "
+    "level_text": "Machine-checked theorems (C20_validation, C20_atomic, C20_accepts, C20_reset, C20_temporary, C20_temporary_reentrant, "
+                  "C20_mc_ok_reachable, closed under the "
                   "global context) about Gallina setters that tools/translate.py regenerates from qexpy/settings/settings.py on "
                   "every run, so a change to a validation condition, a default, reset or the wrapper breaks a proof; the generated "
                   "model is additionally run against the implementation on random call histories, and an independent reference of "
                   "the documented domains searches for the concrete failing call sequence. Proof is the right level because the "
                   "property quantifies over all call histories and all values, which the theorems cover by induction.",
     "level_note": "Trusted: Coq kernel; the translator's Python-subset -> Base/Py.v combinator mapping and its two recognised shapes "
-                  "of use_mc_sample_size; the hand-written SPEC (documented/canon/writes) in Model/Settings.v; Python value universe "
+                  "of use_mc_sample_size (result variable or `return` inside `try`), inlining of private helper methods by argument substitution, "
+                  "`d.update({...})` read as the item assignments in the order written; the hand-written SPEC (documented/canon/writes) in Model/Settings.v; Python value universe "
                   "restricted to ints, bools, finite floats, strings, None, enum members, tuples, lists.",
     "design_ref": "DESIGN.md section 4 C20",
 }
@@ -318,8 +320,10 @@ def correspondence(ctx):
         res.nontrivial.add(core.canonical_key("w", c))
     res.rule = ("random API histories (3-23 calls of the seven q.set_* functions and reset, ~70% documented values, "
                 "rest of every Python type in PyVal) on a new Settings singleton, observing the whole option vector "
-                "with Python type tags after each call; plus use_mc_sample_size wrapped around functions that "
-                "return / raise / change the size themselves. non-trivial = a history with at least one accepted and "
+                "with Python type tags after each call (an accepted integer is sometimes offered again as the float of the same "
+                "value); plus use_mc_sample_size wrapped around functions that return / raise (Exception subclasses, KeyboardInterrupt, "
+                "SystemExit, GeneratorExit) / change the size themselves / enter themselves again 0-3 times (same or separately "
+                "decorated function). non-trivial = a history with at least one accepted and "
                 "one rejected call (distinct by content); every wrapper case counts")
     res.samples = [{"history": sessions[0][0][:6]}, {"wrapper": wcases[0][0]}]
     # shards
